@@ -78,9 +78,10 @@ class Region(Spec):
     Fields: scalar specs, Link() (optional reference to an object of the same region) or Facade(cls) (an abstract helper
     object bound to the element).  Stored as a struct of arrays; two references with equal keys are the same object."""
 
-    def __init__(self, name, cls, depth=None, **fields):
+    def __init__(self, name, cls, depth=None, sampler=None, **fields):
         self.name, self.cls, self.fields = name, cls, fields
         self.depth = depth      # name of the ghost Int field holding the distance to the root (for generated native samples)
+        self.sampler = sampler  # optional callable(rnd) -> list of {field: value}: native samples for the cross-check
 
 
 class Link(Spec):
@@ -101,6 +102,14 @@ class OpaqueField(Spec):
 
     def __init__(self, pytype=str):
         self.pytype = pytype
+
+
+class RegionList(Spec):
+    """A Python list holding ALL objects of a Region in key order (list[k] is the object with key k): indexing follows the
+    list rules (negative indices count from the end, IndexError outside)."""
+
+    def __init__(self, region):
+        self.region = region
 
 
 class Elem(Spec):
